@@ -39,10 +39,10 @@ func NewFWallet(name string, accts []e2wtypes.Account) *FWallet {
 	return &FWallet{WName: name, Accts: accts}
 }
 
-func (w *FWallet) ID() uuid.UUID   { return w.id }
-func (w *FWallet) Type() string    { return "fake" }
-func (w *FWallet) Name() string    { return w.WName }
-func (w *FWallet) Version() uint   { return 1 }
+func (w *FWallet) ID() uuid.UUID { return w.id }
+func (w *FWallet) Type() string  { return "fake" }
+func (w *FWallet) Name() string  { return w.WName }
+func (w *FWallet) Version() uint { return 1 }
 func (w *FWallet) Accounts(_ context.Context) <-chan e2wtypes.Account {
 	ch := make(chan e2wtypes.Account, len(w.Accts))
 	for _, a := range w.Accts {
@@ -54,23 +54,23 @@ func (w *FWallet) Accounts(_ context.Context) <-chan e2wtypes.Account {
 
 // SignReq is one signing request that reached an account (the "remote signer" boundary).
 type SignReq struct {
-	Seq     int
-	Kind    string // sign | generic | proposal | attestation | attestations | genericmulti
-	Account string
-	Data    []byte
-	Domain  []byte
-	Slot    uint64
+	Seq       int
+	Kind      string // sign | generic | proposal | attestation | attestations | genericmulti
+	Account   string
+	Data      []byte
+	Domain    []byte
+	Slot      uint64
 	Committee uint64
-	Source  uint64
-	Target  uint64
+	Source    uint64
+	Target    uint64
 	BlockRoot []byte
-	Batch   int // batch id for multi requests
+	Batch     int // batch id for multi requests
 }
 
 // SignLog records signing requests from all accounts of a case.
 type SignLog struct {
-	mu   sync.Mutex
-	Reqs []SignReq
+	mu    sync.Mutex
+	Reqs  []SignReq
 	batch int
 }
 
@@ -103,9 +103,10 @@ func (l *SignLog) Snapshot() []SignReq {
 
 // Fault modes of an account.
 const (
-	FaultNone  = 0
-	FaultError = 1 // signing returns an error
-	FaultNoSig = 2 // multi-signer returns a nil signature for this account (single signers return an error)
+	FaultNone      = 0
+	FaultError     = 1 // signing returns an error
+	FaultNoSig     = 2 // multi-signer returns a nil signature for this account (single signers return an error)
+	FaultErrorOnce = 3 // the next signing request returns an error, later ones succeed
 )
 
 type acctCore struct {
@@ -125,8 +126,16 @@ func (a *acctCore) Name() string                 { return a.name }
 func (a *acctCore) PublicKey() e2types.PublicKey { return a.pub }
 func (a *acctCore) Wallet() e2wtypes.Wallet      { return a.wallet }
 func (a *acctCore) SetFault(f int)               { a.mu.Lock(); a.fault = f; a.mu.Unlock() }
-func (a *acctCore) Fault() int                   { a.mu.Lock(); defer a.mu.Unlock(); return a.fault }
-func (a *acctCore) FullName() string             { return a.wallet.WName + "/" + a.name }
+func (a *acctCore) Fault() int {
+	a.mu.Lock()
+	defer a.mu.Unlock()
+	if a.fault == FaultErrorOnce {
+		a.fault = FaultNone
+		return FaultError
+	}
+	return a.fault
+}
+func (a *acctCore) FullName() string { return a.wallet.WName + "/" + a.name }
 func (a *acctCore) Pub48() phase0.BLSPubKey {
 	var p phase0.BLSPubKey
 	copy(p[:], a.pub.Marshal())
@@ -135,8 +144,8 @@ func (a *acctCore) Pub48() phase0.BLSPubKey {
 func (a *acctCore) core() *acctCore { return a }
 
 // Lock, Unlock and IsUnlocked make every harness account an AccountLocker (any passphrase unlocks).
-func (a *acctCore) Lock(_ context.Context) error                { return nil }
-func (a *acctCore) Unlock(_ context.Context, _ []byte) error    { return nil }
+func (a *acctCore) Lock(_ context.Context) error               { return nil }
+func (a *acctCore) Unlock(_ context.Context, _ []byte) error   { return nil }
 func (a *acctCore) IsUnlocked(_ context.Context) (bool, error) { return true, nil }
 
 // Acct is what the harness needs from every account kind.
@@ -287,7 +296,9 @@ type DistAcct struct {
 
 func (a DistAcct) CompositePublicKey() e2types.PublicKey { return a.composite }
 func (a DistAcct) SigningThreshold() uint32              { return 2 }
-func (a DistAcct) Participants() map[uint64]string       { return map[uint64]string{1: "a:1", 2: "b:2", 3: "c:3"} }
+func (a DistAcct) Participants() map[uint64]string {
+	return map[uint64]string{1: "a:1", 2: "b:2", 3: "c:3"}
+}
 
 // Account kinds.
 const (
@@ -412,12 +423,12 @@ var DomainTypes = map[string]phase0.DomainType{
 // NewSpec builds a spec map.
 func NewSpec(slotsPerEpoch uint64, extra map[string]any) *SpecProv {
 	m := map[string]any{
-		"SLOTS_PER_EPOCH":                      slotsPerEpoch,
-		"TARGET_AGGREGATORS_PER_COMMITTEE":     uint64(16),
-		"SYNC_COMMITTEE_SIZE":                  uint64(512),
-		"SYNC_COMMITTEE_SUBNET_COUNT":          uint64(4),
+		"SLOTS_PER_EPOCH":                          slotsPerEpoch,
+		"TARGET_AGGREGATORS_PER_COMMITTEE":         uint64(16),
+		"SYNC_COMMITTEE_SIZE":                      uint64(512),
+		"SYNC_COMMITTEE_SUBNET_COUNT":              uint64(4),
 		"TARGET_AGGREGATORS_PER_SYNC_SUBCOMMITTEE": uint64(16),
-		"EPOCHS_PER_SYNC_COMMITTEE_PERIOD":     uint64(256),
+		"EPOCHS_PER_SYNC_COMMITTEE_PERIOD":         uint64(256),
 	}
 	for k, v := range DomainTypes {
 		m[k] = v
